@@ -65,7 +65,7 @@ C18Run(d, cfg, gen) ==
 
 \* C16: failure cases
 C16Fault(cfg, gen) ==
-  IF cfg.fault \in {"notypes", "emptytypes", "missingfile", "malformed"}
+  IF cfg.fault \in {"notypes", "emptytypes", "missingfile", "malformed", "mistypedlist", "mistypedbool", "mistypedmap"}
   THEN (IF gen.exit = 0 THEN {VG("C16." \o cfg.fault \o "_fails", cfg.fault)} ELSE {})
        \cup (IF Len(gen.files) # 0 THEN {VG("C16." \o cfg.fault \o "_nofile", cfg.fault)} ELSE {})
   ELSE {}
